@@ -489,6 +489,7 @@ func (db *SpanFile) allocateSpan(size int) (uint64, int64, error) {
 	if err != nil {
 		return 0, 0, err
 	}
+	verifStep(db, "grow", uint64(currentLength), uint64(expandBy))
 
 	db.freeMap.markFree(currentLength+size, expandBy-size) // Use markFree from freeMap
 
@@ -502,11 +503,13 @@ func (db *SpanFile) writeAt(data []byte, offset uint64) error {
 	}
 
 	copy(db.mmapData[offset:], data)
+	verifStep(db, "write", offset, uint64(len(data)))
 	return msync(db.mmapData[offset : offset+uint64(len(data))])
 }
 
 func (db *SpanFile) markSpanAsFreed(offset uint64) error {
 	binary.BigEndian.PutUint32(db.mmapData[offset:offset+4], freeMagic)
+	verifStep(db, "freed", offset, 0)
 	return msync(db.mmapData[offset : offset+4])
 }
 
